@@ -4,7 +4,7 @@ import ast
 from ..index import AnalysisError, attr_chain, norm, own_nodes
 from ..query import calls_in, call_name, is_value_yield
 from ..condeval import check_cond, ev, Unknown
-from .common import TLSCONN, TLSREC, RECLAYER, consumes_of, nodes_with_call, must_pass
+from .common import TLSCONN, TLSREC, RECLAYER, consumes_of, nodes_with_call, must_pass, dead_edge_labels
 from . import c01shared
 
 EXPLANATION = (
@@ -271,16 +271,8 @@ def rule_rsl(ctx):
                       fi.loc(n), what="%s %s %s" % (fi.short, tgt, kind))
     ctx.require(sites >= 7, "C01.RSL: %d record size limit assignments found, floor 7" % sites)
     rsl_range(ctx, R)
-    rs = ctx.index.func("recordlayer:RecordSocket.recv")
-    g = ctx.an.cfg(rs)
-    body = [n for n in consumes_of(g, "_sockRecvAll") if "record.length" in norm(n.call)]
-    tests = [t for t in g.nodes if t.kind == "test" and "record.length >" in norm(t.expr)]
-    if not body:
-        raise AnalysisError("C01.RSL: record body read not found")
-    from .common import dead_edge_labels
-    eff = [t for t in tests if "T" in dead_edge_labels(g, t, body)]
-    ctx.check(R, len(eff) == 2, rs.qname, "record length capped before the body is read",
-              "both record-length caps must precede reading the record body", rs.loc())
+    from .common import recv_length_caps
+    recv_length_caps(ctx, R)
     rr = ctx.index.func(RECLAYER + "recvRecord")
     gg = ctx.an.cfg(rr)
     ys = [n for n in gg.nodes if is_value_yield(n) and "Parser(data)" in norm(n.ast)]
